@@ -611,8 +611,17 @@ func (g *pgen) block(env []variable, n int, depth int, inFunc, inLoop bool, uppe
 				g.line("switch %s {", g.expr(t, env, 1))
 			}
 			g.swDepth++
+			callCases := r.Chance(20) && len(g.funcsRet(t)) > 0 // every case value is (or contains) a call
 			for c := r.Pick2([]int{0, 1, 2, 2, 3, 3}); c > 0; c-- {
-				g.line("case %s:", g.expr(t, env, 1))
+				if callCases {
+					ce := g.callExpr(Pick(r, g.funcsRet(t)), env, 1)
+					if t == "int" && r.Chance(40) {
+						ce += " + " + fmt.Sprint(r.Intn(5))
+					}
+					g.line("case %s:", ce)
+				} else {
+					g.line("case %s:", g.expr(t, env, 1))
+				}
 				g.indent++
 				g.block(env, r.Range(0, g.f.MaxBody), depth+1, inFunc, inLoop, false)
 				if r.Chance(25) {
@@ -719,6 +728,12 @@ func (g *pgen) block(env []variable, n int, depth int, inFunc, inLoop bool, uppe
 				g.line("var %s, %s %s = %s, %s", a, b, ta, g.expr(ta, env, 1), g.expr(ta, env, 1))
 			case 2:
 				g.line("var %s, %s = %s, %s", a, b, g.expr(ta, env, 1), g.expr(tb, env, 1))
+			case 3:
+				// Go's partial re-definition: one of the names already exists (same type), the other is new
+				if vs := g.varsOf(env, ta); len(vs) > 0 {
+					a = r.Pick(vs)
+				}
+				g.line("%s, %s := %s, %s", a, b, g.expr(ta, env, 1), g.expr(tb, env, 1))
 			default:
 				g.line("%s, %s := %s, %s", a, b, g.expr(ta, env, 1), g.expr(tb, env, 1))
 			}
